@@ -214,6 +214,64 @@ func zzC11_changes(algoIdx int) {
 	verifReach("changes")
 }
 
+// zzC11_overflow: a signature whose s is >= n is rejected by Verify and by the format check, for every key --
+// in particular when s - n would be a valid scalar. Symbolically: arbitrary key and 64 bytes with s >= n.
+// Natively (replay): a real instance is built, since honest signatures never have s < 2^256 - n: pick the nonce
+// k and s' = 7, set r = x(k*G) mod n and solve d = (s'*k - z) / r mod n, so that (r, s') is a valid signature of
+// the message under d; the signature under test is r || (s' + n).
+func zzC11_overflow(algoIdx int) {
+	algo := ecdsaAlgoOf(algoIdx)
+	msg := []byte("overflow")
+	h := hash.NewSHA2_256()
+	var sk PrivateKey
+	var sig []byte
+	var err error
+	if verifNative() {
+		var curve elliptic.Curve = elliptic.P256()
+		if algoIdx == 1 {
+			curve = btcec.S256()
+		}
+		n := curve.Params().N
+		k := new(big.Int).SetBytes(nondetBytes(16))
+		k.Add(k, big.NewInt(12345))
+		x1, _ := curve.ScalarBaseMult(k.Bytes())
+		r := new(big.Int).Mod(x1, n)
+		verifAssume(r.Sign() != 0)
+		digest := ecdsaHasher(0).ComputeHash(msg)
+		z := new(big.Int).SetBytes(digest[:32])
+		sp := big.NewInt(7)
+		d := new(big.Int).Mul(sp, k)
+		d.Sub(d, z)
+		d.Mul(d, new(big.Int).ModInverse(r, n))
+		d.Mod(d, n)
+		verifAssume(d.Sign() != 0)
+		db := make([]byte, 32)
+		d.FillBytes(db)
+		sk, err = DecodePrivateKey(algo, db)
+		verifAssume(err == nil)
+		good := make([]byte, 64)
+		r.FillBytes(good[:32])
+		sp.FillBytes(good[32:])
+		ok, _ := sk.PublicKey().Verify(good, msg, h)
+		verifAssume(ok) // (r, s') really is a signature
+		sig = make([]byte, 64)
+		r.FillBytes(sig[:32])
+		new(big.Int).Add(sp, n).FillBytes(sig[32:])
+	} else {
+		sk, err = DecodePrivateKey(algo, nondetBytes(32))
+		if err != nil {
+			return
+		}
+		sig = nondetBytes(64)
+		verifAssume(!lessThanBE(sig[32:], ecN[algoIdx][:]))
+	}
+	ok, err := sk.PublicKey().Verify(sig, msg, h)
+	verifAssert(bAnd(!ok, err == nil), "a signature with s >= n is rejected by Verify (also when s - n is a valid scalar)")
+	fmtOK, _ := SignatureFormatCheck(algo, sig)
+	verifAssert(!fmtOK, "and by SignatureFormatCheck")
+	verifReach("overflow")
+}
+
 // ---- C05 (ECDSA part): decoders are validating and canonical
 
 func zzC05_ecdsa_private(algoIdx, n int) {
